@@ -318,6 +318,9 @@ func checkMatrix(r *ev.Run, l libMat, a mat) {
 			viol("Inverse", fmt.Sprintf("M^-1 * M differs from the identity by %g", d))
 		}
 	}
+	// the other inverse routes (in place, in place with a given determinant, inverse times a column with a given
+	// determinant) and the small algebra (Add, Scale, Sub) against the dense reference
+	extraMatrixOps(r, l, m, a, det, scale, viol)
 	if l.eig != nil {
 		es := l.eig(m)
 		// separated eigenvalues only (multiple roots are ill-conditioned)
@@ -1016,4 +1019,117 @@ func bicgStage(r *ev.Run, full bool) {
 		}
 	})
 	r.Set("bicgstab_systems", len(systems))
+}
+
+
+// extraMatrixOps: methods that exist only on some of the matrix types, reached through a type switch.
+func extraMatrixOps(r *ev.Run, l libMat, m interface{}, a mat, det, scale float64, viol func(kind, msg string)) {
+	n := l.n
+	vecs := [][]float64{[]float64{1, -2, 0.5, 3}[:n], []float64{0.25, 1, -1, 2}[:n]}
+	tol := 1e-9 * (1 + scale)
+	invertible := math.Abs(det) >= 0.5
+	sum := func(x, y mat, sy float64) mat {
+		out := make(mat, n)
+		for i := range out {
+			out[i] = make([]float64, n)
+			for j := range out[i] {
+				out[i][j] = x[i][j] + sy*y[i][j]
+			}
+		}
+		return out
+	}
+	at := a.t()
+	other := l.build(at)
+	check := func(name string, got, want mat, t float64) {
+		if d := got.maxDiff(want); !(d <= t) {
+			viol(name, fmt.Sprintf("%s differs from the dense reference by %g", name, d))
+		}
+	}
+	var mci func(v []float64) []float64
+	switch x := m.(type) {
+	case *numerical.Matrix2:
+		mci = func(v []float64) []float64 { o := x.MulColumnInv(numerical.Vec2{v[0], v[1]}, det); return o[:] }
+		check("Add", l.dense(x.Add(other.(*numerical.Matrix2))), sum(a, at, 1), tol)
+		if invertible {
+			c1, c2 := *x, *x
+			c1.InvertInPlace()
+			c2.InvertInPlaceDet(det)
+			check("InvertInPlace", l.dense(&c1).mul(a), ident(n), 1e-9*(1+scale*scale/math.Abs(det)))
+			check("InvertInPlaceDet", l.dense(&c2).mul(a), ident(n), 1e-9*(1+scale*scale/math.Abs(det)))
+		}
+		c3 := *x
+		c3.Scale(-2.5)
+		check("Scale", l.dense(&c3), sum(make0(n), a, -2.5), tol*3)
+	case *numerical.Matrix3:
+		mci = func(v []float64) []float64 { o := x.MulColumnInv(numerical.Vec3{v[0], v[1], v[2]}, det); return o[:] }
+		check("Add", l.dense(x.Add(other.(*numerical.Matrix3))), sum(a, at, 1), tol)
+		if invertible {
+			c1, c2 := *x, *x
+			c1.InvertInPlace()
+			c2.InvertInPlaceDet(det)
+			check("InvertInPlace", l.dense(&c1).mul(a), ident(n), 1e-9*(1+scale*scale*scale/math.Abs(det)))
+			check("InvertInPlaceDet", l.dense(&c2).mul(a), ident(n), 1e-9*(1+scale*scale*scale/math.Abs(det)))
+		}
+		c3 := *x
+		c3.Scale(-2.5)
+		check("Scale", l.dense(&c3), sum(make0(n), a, -2.5), tol*3)
+	case *model2d.Matrix2:
+		mci = func(v []float64) []float64 { o := x.MulColumnInv(model2d.XY(v[0], v[1]), det); return []float64{o.X, o.Y} }
+		check("Add", l.dense(x.Add(other.(*model2d.Matrix2))), sum(a, at, 1), tol)
+		if invertible {
+			c1, c2 := *x, *x
+			c1.InvertInPlace()
+			c2.InvertInPlaceDet(det)
+			check("InvertInPlace", l.dense(&c1).mul(a), ident(n), 1e-9*(1+scale*scale/math.Abs(det)))
+			check("InvertInPlaceDet", l.dense(&c2).mul(a), ident(n), 1e-9*(1+scale*scale/math.Abs(det)))
+		}
+		c3 := *x
+		c3.Scale(-2.5)
+		check("Scale", l.dense(&c3), sum(make0(n), a, -2.5), tol*3)
+	case *model3d.Matrix3:
+		mci = func(v []float64) []float64 {
+			o := x.MulColumnInv(model3d.XYZ(v[0], v[1], v[2]), det)
+			return []float64{o.X, o.Y, o.Z}
+		}
+		check("Add", l.dense(x.Add(other.(*model3d.Matrix3))), sum(a, at, 1), tol)
+		if invertible {
+			c1, c2 := *x, *x
+			c1.InvertInPlace()
+			c2.InvertInPlaceDet(det)
+			check("InvertInPlace", l.dense(&c1).mul(a), ident(n), 1e-9*(1+scale*scale*scale/math.Abs(det)))
+			check("InvertInPlaceDet", l.dense(&c2).mul(a), ident(n), 1e-9*(1+scale*scale*scale/math.Abs(det)))
+		}
+		c3 := *x
+		c3.Scale(-2.5)
+		check("Scale", l.dense(&c3), sum(make0(n), a, -2.5), tol*3)
+	case *numerical.Matrix4:
+		check("Add", l.dense(x.Add(other.(*numerical.Matrix4))), sum(a, at, 1), tol)
+		check("Sub", l.dense(x.Sub(other.(*numerical.Matrix4))), sum(a, at, -1), tol)
+		check("Scale", l.dense(x.Scale(-2.5)), sum(make0(n), a, -2.5), tol*3)
+	}
+	if mci != nil && invertible {
+		for _, v := range vecs {
+			xv := mci(v)
+			// M x = v
+			for i := 0; i < n; i++ {
+				sumv := 0.0
+				for j := 0; j < n; j++ {
+					sumv += a[i][j] * xv[j]
+				}
+				if !(math.Abs(sumv-v[i]) <= 1e-9*(1+math.Pow(scale, float64(n))/math.Abs(det))*4) {
+					viol("MulColumnInv", fmt.Sprintf("M * MulColumnInv(%v, det) = ... %g in row %d, want %g", v, sumv, i, v[i]))
+					return
+				}
+			}
+		}
+	}
+	_ = r
+}
+
+func make0(n int) mat {
+	out := make(mat, n)
+	for i := range out {
+		out[i] = make([]float64, n)
+	}
+	return out
 }
